@@ -352,7 +352,7 @@ def shapes(maxpay=1500):
     "qinq-raw": _cat(eth(), vlan(), vlan(type=_free_ethertype()), R()),
     "llc-raw": _cat(eth(), st.one_of(st.just([]), vlan().map(lambda v: [v])), llc_plain(), raw(0, min(maxpay, 1400))),
     "snap-raw": _cat(eth(), snap(oui=nbytes(3).map(lambda o: o if o != b"\0\0\0" else b"\0\0\x0c"), with_type=True), raw(0, min(maxpay, 1400))),
-    "arp": _cat(l2(), arp, st.just({"t": "raw", "len": 0, "pat": 0})),
+    "arp": _cat(l2(), arp, st.just({"t": "raw", "len": 0, "pat": 0, "fixed": True})),
     "arp-padded": _cat(l2(allow_snap=False), arp, raw(1, 18)),
     "ipv4-raw": _cat(l2(), ipv4(proto=_free_proto4()), R()),
     "ipv4-frag": _cat(l2(), ipv4(proto=u(8), flags=st.sampled_from([0, 1, 3]), frag=st.integers(1, 0x1fff)), R()),
@@ -390,9 +390,9 @@ def shapes(maxpay=1500):
     "lldp": _cat(eth(), st.one_of(st.just([]), vlan().map(lambda v: [v])), lldp()),
     "mpls": _cat(eth(), st.one_of(st.just([]), vlan().map(lambda v: [v])), mpls_stack(), R()),
     "eapol-nobody": _cat(eth(), st.tuples(u(8), st.sampled_from([1, 2])).map(lambda t: {"t": "eapol", "ver": t[0], "type": t[1]}),
-                         st.just({"t": "raw", "len": 0, "pat": 0})),
+                         st.just({"t": "raw", "len": 0, "pat": 0, "fixed": True})),
     "eapol-eap": _cat(eth(), u(8).map(lambda v: {"t": "eapol", "ver": v, "type": 0}),
-                      st.one_of(st.tuples(st.sampled_from([3, 4]), u(8)).map(lambda t: [{"t": "eap", "code": t[0], "id": t[1]}, {"t": "raw", "len": 0, "pat": 0}]),
+                      st.one_of(st.tuples(st.sampled_from([3, 4]), u(8)).map(lambda t: [{"t": "eap", "code": t[0], "id": t[1]}, {"t": "raw", "len": 0, "pat": 0, "fixed": True}]),
                                 st.tuples(st.sampled_from([1, 2]), u(8), st.sampled_from([1, 2, 3, 4, 5, 6, 254, 255]), raw(0, 64)).map(
                                     lambda t: [{"t": "eap", "code": t[0], "id": t[1], "type": t[2]}, t[3]]))),
     "eapol-key": _cat(eth(), st.tuples(u(8), st.sampled_from([3, 4])).map(lambda t: {"t": "eapol", "ver": t[0], "type": t[1]}), raw(1, 128)),
